@@ -684,3 +684,68 @@ Proof.
   intros [Hf Hc]%andb_prop. exists p, p'. split; [done|]. split; [done|].
   apply (prints_admitted_drop txt p p' Hp Ha); [by apply in_fragment_b_sound|done].
 Qed.
+
+(* ------------------------------------------------------------------ the synchronous polarized mode *)
+Section drop_runs_md.
+Variable D : tenv.
+Variable F : list fundef.
+Variable teq : sty -> sty -> Prop.
+Hypothesis Hteq : teq_laws D teq.
+Hypothesis HF : funs_typed D F teq.
+Hypothesis HFa : TopoStep.funs_aff F.
+Hypothesis HFn : nofd_funs F.
+Hypothesis HFs : nosplit_funs F.
+
+Lemma refines_drop_step_md md c ch c' :
+  is_np md = false -> InvX D F teq c -> DropCfg c -> (md = Sync -> bufs_empty c) -> step md D F c ch = SStep c' ->
+  (exists ls, sax_steps F true (α c) ls (α c') /\ labels c' = labels c ++ ls) /\ DropCfg c'.
+Proof.
+  intros Hnp HI Hdc Hb Hs.
+  assert (forall c0 self c1, InvX D F teq c0 -> DropCfg c0 -> step Async D F c0 (Run self) = SStep c1 ->
+            (exists ls, sax_steps F true (α c0) ls (α c1) /\ labels c1 = labels c0 ++ ls) /\ DropCfg c1) as Hone.
+  { intros c0 self c1 HI0 Hdc0 Hs0. split.
+    - destruct (refines_drop_step D F teq Hteq HF c0 self c1 HI0 Hdc0 Hs0) as (ls & H1 & H2). exists ls. split; [by apply sax_stepS01_steps|done].
+    - exact (dropcfg_step D F c0 self c1 HFs (ix_topo _ _ _ _ HI0) Hdc0 Hs0). }
+  destruct md; [| |done].
+  - destruct (async_step_run D F c ch c' Hs) as [self ->]. by apply (Hone c self c').
+  - destruct (sync_step_async D F c ch c' (Hb eq_refl) Hs) as [(p & -> & H1)|(s & r & c1 & -> & H1 & H2)].
+    + by apply (Hone c p c').
+    + destruct (Hone c s c1 HI Hdc H1) as [(l1 & Hs1 & Hl1) Hdc1].
+      pose proof (invx_step_async D F teq Hteq HF HFa HFn c (Run s) c1 HI H1) as HI1.
+      destruct (Hone c1 r c' HI1 Hdc1 H2) as [(l2 & Hs2 & Hl2) Hdc2]. split; [|done].
+      exists (l1 ++ l2). split; [by eapply sax_steps_app|]. by rewrite Hl2, Hl1, app_assoc.
+Qed.
+
+Theorem refines_drop_run_md md c tr c' :
+  is_np md = false -> InvX D F teq c -> DropCfg c -> (md = Sync -> bufs_empty c) -> steps md D F c tr c' ->
+  exists ls, sax_steps F true (α c) ls (α c') /\ labels c' = labels c ++ ls.
+Proof.
+  intros Hnp HI Hdc Hb Hs. induction Hs as [c|c ch c1 tr c2 Hstep _ IH].
+  - exists []. split; [by apply sax_refl|by rewrite app_nil_r].
+  - destruct (refines_drop_step_md md c ch c1 Hnp HI Hdc Hb Hstep) as [(l1 & Hs1 & Hl1) Hdc1].
+    destruct (invx_step D F teq Hteq HF HFa HFn md c ch c1 Hnp HI Hb Hstep) as [HI1 Hb1].
+    destruct (IH HI1 Hdc1 Hb1) as (l2 & Hs2 & Hl2).
+    exists (l1 ++ l2). split; [by eapply sax_steps_app|]. by rewrite Hl2, Hl1, app_assoc.
+Qed.
+End drop_runs_md.
+
+Theorem prints_admitted_drop_md md txt p p' :
+  is_np md = false ->
+  parse_string txt = POk p -> typecheck p = Accept p' -> in_fragment p' -> nosplit_program p' = true ->
+  forall fuel pick, exists C',
+    sax_steps (p_funs p') true (sax_init p')
+      (labels (res_config (exec_run fuel pick md (p_types p') (p_funs p') (init_config p')))) C'.
+Proof.
+  intros Hnp Hp Ha Hf Hns fuel pick.
+  pose proof (parse_syn_ok _ _ Hp) as PS. pose proof (parse_raw_ok _ _ Hp) as RS.
+  destruct (init_invx p p' Ha Hf PS RS (all_src_parsed txt p p' Hp Ha)) as (HFa & HFn & HI).
+  pose proof (tc_annotations_typed_rt p p' Ha PS RS Hf) as Hst.
+  destruct (nosplit_program_init p' Hns) as [HFs Hdc].
+  rewrite <- (exec_trace_exec_run md (p_types p') (p_funs p') fuel pick (init_config p') []).
+  destruct (exec_trace fuel pick md (p_types p') (p_funs p') (init_config p') []) as [r tr] eqn:Htr. cbn [fst].
+  apply exec_trace_run in Htr as (es & _ & Hrun).
+  destruct (refines_drop_run_md _ _ _ (teq_rt_laws _) (proj1 Hst) HFa HFn HFs md _ _ _ Hnp HI Hdc
+              (fun _ => bufs_empty_init p') Hrun) as (ls & Hs & Hl).
+  exists (α (res_config r)). rewrite Hl. change (labels (init_config p')) with (@nil string). cbn.
+  eapply sax_steps_perm; [symmetry; apply alpha_init|done].
+Qed.
